@@ -24,4 +24,12 @@ theorem C01_same : ∀ f ty v pre v' out, Gen.env.isFrame ty = false → canonTy
     encTy Gen.env f ty v pre = .ok (v', out) → v' = v :=
   enc_canon_val Gen.env gen_framesTop
 
+/-- the same at the level of the API model (`encode` / `decode`, no fuel): a canonical message of type `ty`, encoded after
+    arbitrary earlier content `pre` and followed by arbitrary further bytes `rest`, decodes to the message the encoder
+    reports and leaves `rest` -/
+theorem C01_api (ty : Nat) (fs : List Val) (pre : Bytes) (v' : Val) (out : Bytes)
+    (hc : canonTy Gen.env Gen.env.fuel ty (.msg ty fs) = true) (h : encode Gen.env (.msg ty fs) pre = .ok (v', out)) :
+    ∃ bs, out = pre ++ bs ∧ ∀ rest, decode Gen.env ty (bs ++ rest) = .ok (v', rest) :=
+  C01_repo Gen.env.fuel ty (.msg ty fs) pre v' out hc h
+
 end FinProto.Obl
